@@ -78,7 +78,7 @@ class C05(Prop):
                 for lay in zoo(shape, rng, 1):
                     yield mk_case(et, shape, [], lay, rng)
         # larger random
-        for _ in range(300 if tier == "quick" else 3000):
+        for _ in range(300 if tier == "quick" else 12000):
             nd = rng.range(1, 4)
             shape = [rng.range(1, 4) for _ in range(nd)]
             n = prod(shape)
